@@ -2679,6 +2679,15 @@ func (dsc *dataStoreCommand) setOperationStore(
 		return
 	}
 
+	if d.count == 0 {
+		// an empty result deletes the destination instead of storing an empty set
+		if dsc.ds.data.remove(destination) {
+			dsc.setDirty()
+		}
+		output.data = respInt(0)
+		return
+	}
+
 	newSk := dsc.ds.newStoreKeyUnlocked(destination)
 	newSk.flags = FLAG_KEY_TYPE_SET
 	newSk.payload = d
